@@ -355,6 +355,26 @@ def random_cases(rng, tier):
         nev = rng.randint(1000, bigmax)
         ring = rng.randint(10, 1000)
         cases.append(gen_stream(rng, nev, ring, rng.choice(fl[:9])) + (ring,))
+    # a stream dominated by ONE long region of late events that belong near the start: the look back needed is
+    # most of the stream (thousands of events), well within the default window of a million entries
+    for i in range(2 if tier == "quick" else 8):
+        nb = rng.randint(200, 400)
+        nr = rng.randint(2300, 3200)
+        ks, cs = ["n"], [0]
+        for k_ in range(1, nb):
+            ks.append("n")
+            cs.append(cs[-1] + rng.choice((1, 1, 2, 3)))
+        t = cs[-1]
+        lo = cs[rng.randint(5, 40)]
+        ks.append("b")
+        cs.append(t)
+        late = [lo] + [rng.randint(lo, t) for _ in range(nr - 1)]
+        rng.shuffle(late)
+        ks += ["n"] * nr
+        cs += late
+        ks += ["e", "n"]
+        cs += [t, t + 1]
+        cases.append((ks, cs, 1000000 if i % 2 == 0 else len(ks) + 50))
     return cases
 
 
